@@ -25,3 +25,13 @@ class PrologSyntaxError(CompilerError):
         self.line = line
         self.column = column
         self.message = msg
+
+class GeneratedCodeError(CompilerError):
+    '''Error thrown when the code generated for a program is not loadable Python, which
+    happens when a clause is too long or too deeply nested for the Python compiler.'''
+
+    def __init__(self, filename, msg):
+        self.filename = filename
+        self.line = 0
+        self.column = 0
+        self.message = msg
